@@ -73,11 +73,20 @@ def gen_case(rng):
     n = rng.randint(1, 6)
     tod_at = rng.randrange(n) if use_tod else None
     horizon = 0.0
+    current = 0            # the value the time register holds (None: pattern)
     for k in range(n):
         if k == tod_at:
             pat = rng.choice(['0:17', '0:18', '0:1*', '*:*8', '0:2*', '*:19'])
             stmts.append('time at {} on all'.format(pat))
             expected.append(('wu', pat))
+            current = None
+            continue
+        if current is not None and k and rng.random() < 0.35:
+            # the register keeps its value: the same delay again
+            stmts.append(rng.choice(['on all', 'wait', 'off "A"', 'set "A"']))
+            if current > 0:
+                expected.append(('pf', current))
+            horizon += current
             continue
         d = rng.choice(DELAYS) if rng.random() < 0.8 else round(
             rng.uniform(0, 3), rng.choice([1, 2, 3]))
@@ -90,6 +99,7 @@ def gen_case(rng):
         stmts.append('time {} {}'.format(lit(d * 1000 if raw else d),
                                          rng.choice(['on all', 'wait',
                                                      'off "A"', 'set "A"'])))
+        current = d
         if d > 0:
             expected.append(('pf', d))
         # some extra statements = more "work" in front of the next delay
